@@ -17,7 +17,7 @@ import numpy as np
 from vk.run import Harness
 from kawin.precipitation.KWNEuler import PrecipitateModel
 import copy
-from kawin.precipitation.PrecipitationParameters import Constraints, PrecipitationData, PrecipitateParameters
+from kawin.precipitation.PrecipitationParameters import Constraints, PrecipitationData, PrecipitateParameters, MatrixParameters
 from kawin.precipitation.PopulationBalance import PopulationBalanceModel as PBM
 from kawin.precipitation.parameters import Nucleation as NUC
 
@@ -670,6 +670,46 @@ def profile(ctx, ref="FE", solutes=("CR", "NI"), sigma="all", N=3):
             same_by_name(ctx, "initial profile and dx/dt rows are permuted with the elements; time step unchanged", got, first)
 
 
+def site_defaults(ctx, solutes=("AL", "CR"), sigma="all", first="composition", density="default", site="bulk"):
+    """default nucleation-site densities derived from the initial composition (real setInitialComposition /
+    setVolumeAlpha -> MatrixParameters.update -> NucleationSiteParameters.setBulkDensityFromComposition, and the lazily
+    computed dislocation / grain-boundary / edge / corner densities): the same for every listing order of the solutes;
+    also through the real _calcNucleationSites of an empty distribution"""
+    from kawin.precipitation.parameters.Volume import VolumeParameter
+    sol = sorted(solutes)
+    xval = {a: ctx.real("x0_" + a, (0.02, 0.2)) for a in sol}
+    for a in sol:
+        ctx.assume(xval[a] > 0)
+    Vm = ctx.real("VmAlpha", (0.5, 2.0)); ctx.assume(Vm > 0)
+    gs = ctx.real("grainSize", (10.0, 200.0)); ar = ctx.real("grainAspectRatio", (1.0, 3.0)); dd = ctx.real("dislocationDensity", (1.0, 9.0))
+    ctx.assume(gs > 0); ctx.assume(ar > 0); ctx.assume(dd > 0)
+    first_got = None
+    for user in el_orders(sol, sigma):
+        m = PrecipitateModel(precipitateParameters=[new_pp("PREC")], elements=list(user))
+        x0 = np.array([xval[a] for a in user])
+        steps = {"composition": lambda: m.setInitialComposition(x0),
+                 "volume": lambda: m.setVolumeAlpha(Vm, VolumeParameter.MOLAR_VOLUME, 4),
+                 "density": (lambda: m.setNucleationDensity(gs, ar, dd)) if density == "set" else (lambda: None)}
+        order = {"composition": ("composition", "volume", "density"), "volume": ("volume", "composition", "density"),
+                 "density": ("density", "volume", "composition")}[first]
+        for st in order:
+            steps[st]()
+        m.setNucleationSite(site)
+        ns = m.matrixParameters.nucleationSites
+        got = {"bulkN0": ns.bulkN0, "dislocationN0": ns.dislocationN0, "GBareaN0": ns.GBareaN0, "GBedgeN0": ns.GBedgeN0, "GBcornerN0": ns.GBcornerN0}
+        ctx.prove("the bulk site density was derived from the composition (none was supplied)", ns._compositionDependentBulkN0 is True and got["bulkN0"] is not None)
+        # what the model uses: available sites of an empty size distribution
+        pbm = m.PBM[0]
+        got["available sites (empty distribution)"] = m._calcNucleationSites(0.0, [0.0 * Vm * pbm.PSD], 0)
+        if first_got is None:
+            first_got = got
+            for k in sorted(got):
+                ctx.observe(k, got[k])
+        else:
+            for k in sorted(got):
+                ctx.prove("default nucleation site density is the same for every listing order of the solutes [%s]" % k, ctx.eq(got[k], first_got[k]))
+
+
 _NAMESETS = [("AL", ["CR", "NI"]), ("FE", ["CR", "NI"]), ("ZR", ["CR", "NI"]), ("AL", ["CR", "NB", "TI"]), ("MO", ["CR", "NB", "TI"]), ("ZR", ["C", "NB", "TI"])]
 _FE = [GT._getConditions, GT._setupSubModels, GT.getLocalEq, GT.getEq, GT.getInterdiffusivity, GT._interdiffusivitySingle, GT.getTracerDiffusivity,
        GT._tracerDiffusivitySingle, GT.getDrivingForce, GT._getDrivingForceSampling, GT._getDrivingForceApprox, GT._getDrivingForceCurvature,
@@ -755,6 +795,18 @@ HARNESSES = [
                                  for h in ("wiener upper", "labyrinth") for r, so in _NAMESETS]
                                 + [{"ref": "FE", "solutes": ["CR", "N"], "homog": "wiener lower"}, {"ref": "NI", "solutes": ["B", "CR", "H"], "sigma": "cycle", "_opts": {"ob_timeout": 60.0}},
                                    {"ref": "FE", "solutes": ["CR", "MN", "N"], "_opts": {"ob_timeout": 60.0}}]}),
+    Harness("C11.site_defaults", site_defaults,
+            functions=[PrecipitateModel.setInitialComposition, PrecipitateModel.setVolumeAlpha, PrecipitateModel.setNucleationDensity, PrecipitateModel.setNucleationSite,
+                       MatrixParameters.update, NUC.NucleationSiteParameters.setBulkDensityFromComposition, NUC.NucleationSiteParameters.setNucleationDensity,
+                       NUC.NucleationSiteParameters.dislocationSites, NUC.NucleationSiteParameters.grainBoundarySites, NUC.NucleationSiteParameters.grainEdgeSites,
+                       NUC.NucleationSiteParameters.grainCornerSites, PrecipitateModel._calcNucleationSites],
+            assumptions=["initial solute compositions > 0, matrix molar volume > 0, grain size / aspect ratio / dislocation density > 0 (all symbolic)",
+                         "no bulk site density supplied by the user (kawin derives it from the initial composition)"],
+            bounds={"solutes": "2 (both orders) and 3 (all 6 orders)", "call orders": "composition first / volume first / site parameters first"},
+            params={"quick": [{"solutes": ["AL", "CR"], "first": "composition"}, {"solutes": ["AL", "CR"], "first": "volume", "density": "set"},
+                              {"solutes": ["AL", "CR", "TI"], "first": "density", "density": "set"}, {"solutes": ["AL", "CR", "TI"], "first": "volume", "site": "dislocations"}],
+                    "thorough": [{"solutes": so, "first": f, "density": d, "site": si} for so in (["AL", "CR"], ["AL", "CR", "TI"]) for f in ("composition", "volume", "density")
+                                 for d in ("default", "set") for si in ("bulk", "dislocations")]}),
     Harness("C11.profile", profile, functions=_FE, assumptions=_AE + ["initial compositions in (0.01, 0.3) (above minComposition, sum below 1)"],
             stubs=_SE, bounds=dict(_BE, nodes="N (3 for two solutes; 2 for three solutes, where the time-step claim over 3 nodes did not finish)"),
             budget={"quick": 90.0, "thorough": 900.0},
